@@ -171,3 +171,30 @@ Definition reorder (ds : list docarg) (o : outcome) : outcome :=
   | e => e end.
 Definition spec_of (ds : list docarg) (args : list arg) : option outcome :=
   match parse_ll ds with Some l => Some (reorder ds (bind_S l args)) | None => None end.
+
+(* ---- default forms that read an earlier parameter (round 5) ----
+   CLHS 3.4.1: a default form is evaluated with every parameter to its left bound - to its argument or to the
+   value of its own default form.  With distinct parameter names the value of a parameter never changes once it
+   is bound, so the requirement can be stated on the outcome itself: the outcome o binds as the lambda list
+   prescribes when it is the binding prescribed by the lambda list in which each form FRef y k is replaced by
+   its value under the bindings of o.  (For a form that only refers to parameters on its left this determines
+   o uniquely, parameter by parameter from left to right.) *)
+Definition env_of (o : outcome) : N -> option value :=
+  match o with OBound b => lookup b | OErr _ => fun _ => None end.
+Definition litd (rho : N -> option value) (f : dform) : option Z :=
+  match form_val rho f with Some v => v | None => None end.
+Definition lit (rho : N -> option value) (ad : xdocarg) : docarg :=
+  {| d_name := x_name ad; d_def := match x_def ad with Some f => litd rho f | None => None end |}.
+Definition meets_Sx (xs : list xdocarg) (args : list arg) (o : outcome) : bool :=
+  match spec_of (map (lit (env_of o)) xs) args with Some s => outcome_eqv s o | None => true end.
+(* guard: every form refers to a parameter on its left (a form that names a LATER parameter reads, in the
+   language, the variable outside the function) *)
+Fixpoint refs_back (seen : list N) (xs : list xdocarg) : bool :=
+  match xs with
+  | [] => true
+  | ad :: xs' =>
+      (match x_def ad with Some (FRef y _) => existsb (N.eqb y) seen | _ => true end) &&
+      refs_back (match x_name ad with PVar x => x :: seen | _ => seen end) xs'
+  end.
+Definition in_domain_x (xs : list xdocarg) (args : list arg) : bool :=
+  in_domain (map strip xs) args && refs_back [] xs.
